@@ -270,11 +270,42 @@ pub(crate) fn parse_block_size_from_bytes(bytes: &mut &[u8]) -> Result<(u32, usi
 ///     (the first character of consecutive characters that are shortened).
 /// 2.  The length of the *original* consecutive characters
 ///     (that are shortened into [`MAX_SEQUENCE_SIZE`](block_hash::MAX_SEQUENCE_SIZE)).
+#[allow(dead_code)]
 #[inline(always)]
 pub(crate) fn parse_block_hash_from_bytes<F, const N: usize>(
     blockhash: &mut [u8; N],
     blockhash_len: &mut u8,
     normalize: bool,
+    bytes: &mut &[u8],
+    report_norm_seq: F,
+) -> (BlockHashParseState, usize)
+where
+    F: FnMut(usize, usize),
+    BlockHashSize<N>: ConstrainedBlockHashSize,
+{
+    parse_block_hash_from_bytes_internal(
+        blockhash,
+        blockhash_len,
+        normalize,
+        false,
+        bytes,
+        report_norm_seq,
+    )
+}
+
+/// The implementation of [`parse_block_hash_from_bytes()`] with an option
+/// to limit the length of the *raw* (not normalized) block hash to `N`.
+///
+/// If `limit_raw` is true, a block hash longer than `N` characters before
+/// the normalization is rejected just like when `normalize` is false (so that
+/// the caller can reconstruct the raw block hash from the reported sequences).
+#[cfg_attr(feature = "strict-parser", allow(unused_variables))]
+#[inline(always)]
+pub(crate) fn parse_block_hash_from_bytes_internal<F, const N: usize>(
+    blockhash: &mut [u8; N],
+    blockhash_len: &mut u8,
+    normalize: bool,
+    limit_raw: bool,
     bytes: &mut &[u8],
     mut report_norm_seq: F,
 ) -> (BlockHashParseState, usize)
@@ -305,6 +336,13 @@ where
                 break true;
             }
             let curr = bch;
+            #[cfg(not(feature = "strict-parser"))]
+            if limit_raw && crate::internals::intrinsics::unlikely(index >= N) {
+                *blockhash_len = len as u8;
+                invariant!(index <= bytes.len());
+                *bytes = &bytes[index..]; // grcov-excl-br-line:ARRAY
+                return (BlockHashParseState::OverflowError, index);
+            }
             if normalize {
                 if curr == prev {
                     seq += 1;
